@@ -147,7 +147,12 @@ def _mame_statics(workroot):
                        verifier_output=["%s : %s (line %s)" % m for m in new], native_replay=None), open(path, "w"), indent=1)
         return dict(name=name, status="violated", detail="mutable static objects not covered by a known finding: %s" % new, replay=path, reproduced=False)
     lines = ["KNOWN-FINDING: property=C14 %s [%s]" % (k["what_fails"], k["id"]) for k in kf if any(m[0] in k.get("objects", []) for m in mutable)]
-    return dict(name=name, status="ok", obligations=len(objs), discharged=len(objs) - len(mutable), wall_s=round(time.time() - t0, 1), known_findings=lines,
+    # counted as obligations of this run: one per object OUTSIDE the known finding's witness class (each must be const-qualified),
+    # the way the CBMC groups count the run with the witness class excluded.  The objects the open finding names are NOT
+    # counted as discharged anywhere: they are reported under known_finding_undischarged.
+    claimed = [o for o in objs if o[0] not in listed]
+    return dict(name=name, status="ok", obligations=len(claimed), discharged=sum(1 for o in claimed if o[3]), wall_s=round(time.time() - t0, 1), known_findings=lines,
+                known_finding_undischarged=sorted(m[0] for m in mutable),
                 detail="%d objects of static lifetime in mame_ym2612fm.c, %d mutable, all listed in the known finding: %s" % (len(objs), len(mutable), sorted(m[0] for m in mutable)),
                 method="goto-cc symbol table of the real translation unit")
 
